@@ -36,6 +36,17 @@ BodyClauses == <<"NoException", "DisjointMeansNoContact">>
 BodyHolds(c, r) ==
   CASE c = "NoException"            -> r.exc = "none"
     [] c = "DisjointMeansNoContact" -> (r.exc = "none" /\ r.far) => (~r.flag /\ r.wrench = 0)
+(* kind = "clip": one configuration of the explorer PolygonClip replayed on the real clipping pipeline under a similarity
+   transform, in two half-plane orders: r.orderArea = |area(order 1) - area(order 2)|, r.modelArea = largest difference to
+   the exact area of the model's polygon (ticks of 1e-9 * L^2 / 8), r.fits (at most 8 points reach the tesselation table).
+   OrderIndependent is the property's clause; conformance to the model is reported as drift, not as a violation. *)
+ClipClauses == <<"NoException", "OrderIndependent", "FitsTable", "DRIFT_ClipConformsToModel">>
+ClipHolds(c, r) ==
+  CASE c = "NoException"               -> r.exc = "none"
+    [] c = "OrderIndependent"          -> r.exc = "none" => r.orderArea <= Slack
+    [] c = "FitsTable"                 -> r.exc = "none" => r.fits
+    [] c = "DRIFT_ClipConformsToModel" -> r.exc = "none" => r.modelArea <= Slack
 Failing(r) == IF r.kind = "pair" THEN { c \in SetOf(PairClauses) : ~PairHolds(c, r) }
+              ELSE IF r.kind = "clip" THEN { c \in SetOf(ClipClauses) : ~ClipHolds(c, r) }
               ELSE { c \in SetOf(BodyClauses) : ~BodyHolds(c, r) }
 =============================================================================
